@@ -23,6 +23,7 @@ import copy
 import random
 import shutil
 import tempfile
+import threading
 
 from .. import core
 from .. import varlib as vl
@@ -73,8 +74,13 @@ def check_scenario(ctx, chain, start, exp, stats, origin="s2c"):
         if ok_data and (o["seq"][0] != want or o["compose"][0] != want):
             ctx.violation("compose:data:" + tag, dict(detail, expected=want, sequence=o["seq"][0],
                                                       compose=o["compose"][0]))
-        # ---- same context
-        if o["seq"][1] != o["compose"][1]:
+        # ---- same context (not demanded for a chain with an untyped variable on a value whose
+        # context.variable is typed: outside "variables with distinct types", and the documentation
+        # warns that an untyped variable loses the earlier descriptions - counted only)
+        if vl.has_untyped(chain) and _prev_types(startc):
+            stats["untyped_after_typed"] += 1
+            stats["untyped_after_typed_differs"] += int(o["seq"][1] != o["compose"][1])
+        elif o["seq"][1] != o["compose"][1]:
             ctx.violation("compose-vs-sequence:context:" + tag,
                           dict(detail, sequence=o["seq"][1], compose=o["compose"][1]))
         # ---- Combine: tuple of the getters' results; name, dim, combine
@@ -115,7 +121,7 @@ def check_scenario(ctx, chain, start, exp, stats, origin="s2c"):
                 else:
                     stats["exact"] += int(var == ev)
                     stats["typed_checked"] += 1
-            elif not plain:
+            elif not plain and not vl.has_untyped(chain):
                 # nested Compose in the chain: compose lists type names only, the chain's types in order
                 comp = var.get("compose")
                 if comp is not None:
@@ -161,7 +167,7 @@ def _prev_types(startc):
 # ---------------------------------------------------------------------------- C2S
 ATTR_NAMES = ["unit", "latex", "range", "title", "scale", "label", "bins", "note"]
 TYPE_NAMES = ["particle", "coordinate", "length", "area", "detector", "energy", "time", "angle", "charge"]
-WORDS = ["mm", "cm", "e+", "MeV", "x", "far", "near", "a_b", "log", "0", "100"]
+WORDS = ["mm", "cm", "e+", "MeV", "x", "far", "near", "a_b", "log", "0", "100", ""]
 
 
 def random_attrs(rnd):
@@ -172,8 +178,10 @@ def random_attrs(rnd):
             out[name] = vl.enc(rnd.choice(WORDS))
         elif r < 0.7:
             out[name] = vl.enc([rnd.choice(WORDS) for _ in range(rnd.randint(0, 3))])
-        elif r < 0.85:
+        elif r < 0.78:
             out[name] = vl.enc(rnd.randint(0, 50))
+        elif r < 0.85:
+            out[name] = vl.enc(rnd.choice([None, {}, []]))
         else:
             out[name] = vl.enc({"lo": rnd.choice(WORDS), "hi": {"v": rnd.choice(WORDS)}})
     return out
@@ -182,13 +190,15 @@ def random_attrs(rnd):
 def random_scenario(rnd):
     n = rnd.randint(1, 5)
     types = rnd.sample(TYPE_NAMES, n + 2)
-    getters = rnd.sample(sorted(vl.GETTERS), n)
+    getters = rnd.sample(["inc", "dbl", "tri", "sq", "add5"], n)
     names = rnd.sample(["positron", "x", "y", "mm", "sq", "far", "E", "t", "phi", "q"], n + 2)
 
     def var(j):
         return {"k": "var", "ch": [], "v": {"name": [names[j]], "type": types[j], "attrs": random_attrs(rnd),
                                             "g": getters[j] if j < n else "inc"}}
     plain = [var(j) for j in range(n)]
+    if rnd.random() < 0.2:
+        plain[rnd.randrange(n)]["v"]["type"] = ""        # one variable without type
     chain = list(plain)
     if n >= 3 and rnd.random() < 0.3:
         j = rnd.randint(0, n - 2)
@@ -204,6 +214,8 @@ def random_scenario(rnd):
         c = {}
     elif r < 0.4:
         c = {"data": {"run": rnd.choice(WORDS)}}
+    elif r < 0.48:
+        c = {"variable": rnd.choice([{}, None]), "other": rnd.choice(WORDS)}
     elif r < 0.55:
         c = {"variable": {"name": "old", "unit": "u"}, "other": rnd.choice(WORDS)}
     else:
@@ -253,6 +265,28 @@ def demo_defect_models(ctx):
             "%s: TLC violates %s after %d states" % (what, inv, res.distinct))
 
 
+class Background(object):
+    """Design-level TLC runs in a thread while the main thread exports and replays."""
+
+    def __init__(self, jobs):
+        self.exc = None
+        self.thread = threading.Thread(target=self._work, args=(jobs,))
+        self.thread.daemon = True
+        self.thread.start()
+
+    def _work(self, jobs):
+        try:
+            for job in jobs:
+                job()
+        except BaseException as exc:    # noqa
+            self.exc = exc
+
+    def join(self):
+        self.thread.join()
+        if self.exc is not None:
+            raise self.exc
+
+
 def run(ctx):
     # private scratch directory: a concurrent invocation of the same check wipes build/<ID>
     ctx.workdir = tempfile.mkdtemp(prefix=ctx.pid + "_", dir=core.BUILD)
@@ -270,13 +304,16 @@ def _run(ctx):
                "element of a chain")
     ctx.assume("of a pre-existing typed context.variable only its compose/type order is required to persist, "
                "not which other keys survive")
-    stats = {"scenarios": 0, "typed_checked": 0, "exact": 0}
+    stats = {"scenarios": 0, "typed_checked": 0, "exact": 0, "untyped_after_typed": 0,
+             "untyped_after_typed_differs": 0}
     cfgs = ["Variables_%s_a.cfg" % tag, "Variables_%s_b.cfg" % tag]
-    for j, cfg in enumerate(cfgs):
-        ctx.mc("Variables", cfg, coverage=(j == 0), must_cover=ACTIONS if j == 0 else ())
-    demo_defect_models(ctx)
+    # design level in a background thread (many workers); -coverage (slow) on a small configuration
+    jobs = [lambda: ctx.mc("Variables", "Variables_cov.cfg", coverage=True, must_cover=ACTIONS, workers=2)]
+    jobs += [(lambda cfg=cfg: ctx.mc("Variables", cfg)) for cfg in cfgs]
+    jobs.append(lambda: demo_defect_models(ctx))
+    bg = Background(jobs)
     for cfg in cfgs:
-        recs = ctx.export("Variables", cfg.replace(".cfg", "_export.cfg"), min_records=500)
+        recs = ctx.export("Variables", cfg.replace(".cfg", "_export.cfg"), min_records=300)
         for r in recs:
             check_scenario(ctx, r["chain"], r["start"], r, stats)
         ctx.sample({"spec_behaviour": _brief(recs[len(recs) // 2])})
@@ -285,6 +322,7 @@ def _run(ctx):
                     lambda r: vl.start_kind(vl.dec(r["start"]["c"]))
                     if all(e["k"] == "var" for e in r["chain"]) else "nested")
     ctx.binding_demo("Trace_Variables", "Trace_Variables.cfg", trace, corrupt)
+    bg.join()
     ctx.extra["c14"] = stats
     return ctx.finish(
         rule="S2C: every (chain, starting value) of the bounded machine (quick: chains of 1..4 of 4 plain variables, "
